@@ -427,7 +427,7 @@ Local Hint Resolve pres_dispatch : pres.
 Lemma pres_on_message c msg o : pres (fun _ => True) (on_message cfg c msg o).
 Proof. unfold on_message. repeat pres_step. Qed.
 
-Lemma pres_on_open c : pres (fun _ => True) (on_open c).
+Lemma pres_on_open c : pres (fun _ => True) (on_open cfg c).
 Proof. unfold on_open. repeat pres_step. Qed.
 
 Lemma pres_on_close c : pres (fun _ => True) (on_close c).
@@ -454,9 +454,9 @@ Lemma step_b_BL s e : BL s -> BL (fst (fst (step_b cfg s e))).
 Proof.
   intros Hs. destruct e as [c|c m o|c|fault|dt fault]; cbn [step_b].
   - destruct (has_conn c s); [exact Hs|]. cbv zeta.
-    pose proof (run_m_BL (on_open c) (set_conns s (conns s ++ [(c, new_conn)]))
+    pose proof (run_m_BL (on_open cfg c) (set_conns s (conns s ++ [(c, new_conn)]))
                   (pres_on_open c) Hs) as H.
-    destruct (run_m (on_open c) (set_conns s (conns s ++ [(c, new_conn)]))) as [s2 x].
+    destruct (run_m (on_open cfg c) (set_conns s (conns s ++ [(c, new_conn)]))) as [s2 x].
     exact H.
   - destruct (has_conn c s); [|exact Hs].
     pose proof (pres_elim _ _ s (pres_on_message c m o) Hs) as H.
